@@ -37,6 +37,7 @@ import argparse, json, os, random, types
 from twisted.application import service
 from twisted.internet import defer
 from twisted.python.failure import Failure
+from twisted.python import log as tw_log
 from foolscap.api import eventually, Violation, DeadReferenceError
 from foolscap.reconnector import ReconnectionInfo
 
@@ -57,6 +58,15 @@ def version_dict(kind):
                  b"available-space": AVAIL[kind], b"tolerates-immutable-read-overrun": True,
                  b"delete-mutable-shares-with-zero-length-writev": True},
             b"application-version": b"stub/" + kind.encode("ascii")}
+
+
+ERRORS = []
+tw_log.addObserver(lambda ev: ERRORS.append(ev) if ev.get("isError") else None)
+
+
+def norm(x):
+    """a text answer as JSON-able text (an answer of another type is kept visible, not hidden)"""
+    return x if isinstance(x, str) else "?%s:%r" % (type(x).__name__, x)
 
 
 class Clock:
@@ -326,7 +336,7 @@ class World:
         nick, stub_sid = {}, {}
         for s, rid in list(self.real_id.items()) + [("unknown", self.unknown_id)]:
             r = b.get_nickname_for_serverid(rid)
-            nick[s] = {"known": r is not None, "nick": r if r is not None else ""}
+            nick[s] = {"known": r is not None, "nick": norm(r) if r is not None else ""}
             stub_sid[s] = self.num(b.get_stub_server(rid))
         obs["nick"], obs["stub_sid"] = nick, stub_sid
         obs["stub_tub"] = {t: self.num(b.get_stub_server(tb)) for t, tb in self.tub_bytes.items()}
@@ -338,7 +348,7 @@ class World:
         for n, srv in enumerate(self.objs, 1):
             tubs = self.tubs_of(n)
             rc = self.request_of(n)
-            o = {"sid": self.abs_sid.get(srv.get_serverid(), "?"), "ann": self.classify_ann(srv), "nick": srv.get_nickname(),
+            o = {"sid": self.abs_sid.get(srv.get_serverid(), "?"), "ann": self.classify_ann(srv), "nick": norm(srv.get_nickname()),
                  "conn": bool(srv.is_connected()), "lc": srv.last_connect_time or 0, "ll": srv.last_loss_time or 0,
                  "ver": self.classify_version(srv.get_version()),
                  "storage": srv.get_storage_server() is not None, "rref": srv.get_rref() is not None,
@@ -358,8 +368,20 @@ class World:
 
     def record(self, ev, order=()):
         settle()
+        ev.setdefault("raised", "")
         ev["obs"] = self.observe(order)
+        # failures logged while the event was processed (exceptions in eventual-send turns, unhandled Deferred failures)
+        ev["obs"]["errors"] = len(ERRORS)
+        ev["obs"]["error_text"] = "; ".join(sorted({str(x.get("failure").value)[:120] if x.get("failure") else str(x.get("message"))[:120] for x in ERRORS}))[:400]
+        del ERRORS[:]
         self.events.append(ev)
+
+    def call(self, ev, f, *a, **kw):
+        """run an entry point of the real code; an exception it raises is part of the observation"""
+        try:
+            f(*a, **kw)
+        except Exception as e:
+            ev["raised"] = type(e).__name__
 
     # ---- events ----------------------------------------------------------------
     def do_static(self):
@@ -376,14 +398,15 @@ class World:
             else:
                 servers[rid] = {"connections": {"tcp": "tcp"}}            # malformed: no "ann"
             entries.append({"sid": s, "kind": kind, "ok": ok})
+        ev = {"ev": "Static", "entries": entries}
         if self.mode == "prod":
             with open(os.path.join(self.basedir, "private", "servers.yaml"), "w") as f:
                 yaml.safe_dump({"storage": servers}, f)
             fake = types.SimpleNamespace(config=self.config, storage_broker=self.broker)
-            client_mod._Client.load_static_servers(fake)
+            self.call(ev, client_mod._Client.load_static_servers, fake)
         else:
-            self.broker.set_static_servers(servers)
-        self.record({"ev": "Static", "entries": entries}, order)
+            self.call(ev, self.broker.set_static_servers, servers)
+        self.record(ev, order)
 
     def do_announce(self, s, kind):
         ann = json.loads(json.dumps(self.ann[s][kind]))        # a fresh, equal dictionary every time
@@ -396,22 +419,25 @@ class World:
         r = StubRref(rc.tub, ver)
         if ver != "dead":
             self.links[n] = r
-        rc.cb(r)
+        ev = {"ev": "ConnectDead", "obj": n} if ver == "dead" else {"ev": "Connect", "obj": n, "ver": ver}
+        self.call(ev, rc.cb, r)
         settle()
-        resets = [m for m in before if self.request_of(m) is not None and self.request_of(m).resets > before[m]]
-        if ver == "dead":
-            self.record({"ev": "ConnectDead", "obj": n})
-        else:
-            self.record({"ev": "Connect", "obj": n, "ver": ver, "resets": resets})
+        if ver != "dead":
+            ev["resets"] = [m for m in before if self.request_of(m) is not None and self.request_of(m).resets > before[m]]
+        self.record(ev)
 
     def do_lose(self, n):
         self.links[n].lose()
         self.record({"ev": "Lose", "obj": n})
 
     def do_listen(self, lid, th):
-        d = self.broker.when_connected_enough(th)
-        d.addCallback(lambda _: self.fired.__setitem__(lid, self.fired[lid] + 1))
-        self.record({"ev": "Listen", "lid": lid, "th": th})
+        ev = {"ev": "Listen", "lid": lid, "th": th}
+
+        def reg():
+            d = self.broker.when_connected_enough(th)
+            d.addCallback(lambda _: self.fired.__setitem__(lid, self.fired[lid] + 1))
+        self.call(ev, reg)
+        self.record(ev)
 
     def do_tick(self, dt):
         self.clock.now += dt
@@ -419,8 +445,9 @@ class World:
         self.record({"ev": "Tick", "dt": dt})
 
     def do_stop(self):
-        self.broker.stopService()
-        self.record({"ev": "Stop"})
+        ev = {"ev": "Stop"}
+        self.call(ev, self.broker.stopService)
+        self.record(ev)
 
     # ---- scenario ----------------------------------------------------------------
     def run(self, nevents):
@@ -491,16 +518,19 @@ def main():
     ap.add_argument("--mode", default="direct")
     ap.add_argument("--n", type=int, default=50)
     ap.add_argument("--events", type=int, default=25)
+    ap.add_argument("--plan", help="JSON list of [mode, legacy, n, events] run in one process")
     ap.add_argument("--legacy", type=int, default=0, help="1 = some servers answer get_version with a Violation")
     a = ap.parse_args()
+    plan = json.loads(a.plan) if a.plan else [[a.mode, a.legacy, a.n, a.events]]
     traces = []
-    for i in range(a.n):
-        rng = random.Random("X-storclient/%s/%d/%d/%d" % (a.mode, a.legacy, a.seed, i))
-        basedir = os.path.join(os.getcwd(), "scb", "%s_%d_%d" % (a.mode, a.legacy, i))
-        os.makedirs(basedir, exist_ok=True)
-        w = World(rng, a.mode, basedir, bool(a.legacy))
-        w.run(a.events)
-        traces.append(w.trace())
+    for mode, legacy, n, events in plan:
+        for i in range(n):
+            rng = random.Random("X-storclient/%s/%d/%d/%d" % (mode, legacy, a.seed, i))
+            basedir = os.path.join(os.getcwd(), "scb", "%s_%d_%d" % (mode, legacy, i))
+            os.makedirs(basedir, exist_ok=True)
+            w = World(rng, mode, basedir, bool(legacy))
+            w.run(events)
+            traces.append(w.trace())
     with open(a.out, "w") as f:
         json.dump(traces, f)
 
